@@ -1543,10 +1543,19 @@ impl ASN1Value {
                     kind: GrammarErrorType::LinkerError,
                 };
                 if let [id, val] = chunk {
-                    val.number
-                        .and_then(|n| <u128 as TryInto<i128>>::try_into(n).ok())
-                        .ok_or_else(err)
-                        .map(|number| (id.name.take(), Box::new(ASN1Value::Integer(number))))
+                    // the member's value is a number or, like in `{ x five }`, a value reference
+                    match (val.number, val.name.take()) {
+                        (Some(n), _) => <u128 as TryInto<i128>>::try_into(n)
+                            .map(ASN1Value::Integer)
+                            .map_err(|_| err()),
+                        (None, Some(identifier)) => Ok(ASN1Value::ElsewhereDeclaredValue {
+                            module: None,
+                            identifier,
+                            parent: None,
+                        }),
+                        (None, None) => Err(err()),
+                    }
+                    .map(|value| (id.name.take(), Box::new(value)))
                 } else {
                     Err(err())
                 }
